@@ -154,3 +154,14 @@ def suites(tier, seed):
                   rule="one channel; return listener x confirm listener in {never set, live, receiver dropped, replaced} x blocked listener in {never set, live, dropped} x EVERY sequence of 3 (thorough: 4) events from {returned message, ack, nack, blocked/unblocked}; all listener queues read to their end"),
             Suite("sessions", "machine", lambda: gen(tier, seed), monitor=monitor, nontrivial=nontrivial, canon=mg.canon_nondet, candidate_ok=mg.candidate_ok,
                   rule="random sessions biased to acks/nacks (tags up to 2^64-1, multiple flag), returned messages and blocked/unblocked notices, with listeners registered, replaced and dropped at random points, with and without a listener")]
+
+
+# --- suites of neighbouring properties that also decide this one (cross-listed after wave 6) ---------
+_suites_before_wave6 = suites
+
+
+def suites(tier, seed):
+    def borrow(mod, names):
+        m = __import__("props." + mod, fromlist=["x"])
+        return [s_ for s_ in m.suites(tier, seed) if s_.name in names]
+    return [s_ for s_ in borrow("c04", ("calls-at-api",))] + _suites_before_wave6(tier, seed)
